@@ -14,9 +14,20 @@ pub struct StructCase {
     pub rt: Runtime,
     /// remaining tape (drives variants, cancellation indices, ... depending on the property)
     pub extra: Vec<u16>,
+    /// further problems on the same universe (solve histories on one solver)
+    #[serde(default)]
+    pub more: Vec<Problem>,
 }
 
-fn remove_cand(u: &mut Universe, p: &mut Problem, pkg: usize, k: usize) {
+impl StructCase {
+    fn all_problems(&mut self) -> Vec<&mut Problem> {
+        let mut v = vec![&mut self.problem];
+        v.extend(self.more.iter_mut());
+        v
+    }
+}
+
+fn remove_cand(u: &mut Universe, ps: &mut [&mut Problem], pkg: usize, k: usize) {
     let pk = &mut u.packages[pkg];
     pk.cands.remove(k);
     pk.sort_rank.retain(|&i| i != k);
@@ -48,16 +59,18 @@ fn remove_cand(u: &mut Universe, p: &mut Problem, pkg: usize, k: usize) {
             }
         }
     }
-    p.soft.retain(|s| !(s.pkg == pkg && s.listed && s.idx == k));
-    for s in p.soft.iter_mut() {
-        if s.pkg == pkg && s.listed && s.idx > k {
-            s.idx -= 1;
+    for p in ps.iter_mut() {
+        p.soft.retain(|s| !(s.pkg == pkg && s.listed && s.idx == k));
+        for s in p.soft.iter_mut() {
+            if s.pkg == pkg && s.listed && s.idx > k {
+                s.idx -= 1;
+            }
         }
     }
 }
 
 /// Drop unreferenced version sets, unions and trailing empty packages; remap indices.
-fn collect_garbage(u: &mut Universe, p: &mut Problem) {
+fn collect_garbage(u: &mut Universe, ps: &mut [&mut Problem]) {
     // unions
     let mut used_union = vec![false; u.unions.len()];
     let mut mark_req = |r: &Req, used_union: &mut Vec<bool>| {
@@ -65,8 +78,10 @@ fn collect_garbage(u: &mut Universe, p: &mut Problem) {
             used_union[*i] = true;
         }
     };
-    for r in &p.reqs {
-        mark_req(r, &mut used_union);
+    for p in ps.iter() {
+        for r in &p.reqs {
+            mark_req(r, &mut used_union);
+        }
     }
     for pk in &u.packages {
         for c in pk.cands.iter().chain(pk.unlisted.iter()) {
@@ -98,11 +113,13 @@ fn collect_garbage(u: &mut Universe, p: &mut Problem) {
             used_vs[*i] = true;
         }
     };
-    for r in &p.reqs {
-        mark(r, &mut used_vs);
-    }
-    for &c in &p.constraints {
-        used_vs[c] = true;
+    for p in ps.iter() {
+        for r in &p.reqs {
+            mark(r, &mut used_vs);
+        }
+        for &c in &p.constraints {
+            used_vs[c] = true;
+        }
     }
     for pk in &u.packages {
         for c in pk.cands.iter().chain(pk.unlisted.iter()) {
@@ -134,11 +151,13 @@ fn collect_garbage(u: &mut Universe, p: &mut Problem) {
         Req::Single(i) => *i = vs_map[*i],
         Req::Union(i) => *i = union_map[*i],
     };
-    for r in p.reqs.iter_mut() {
-        remap(r);
-    }
-    for c in p.constraints.iter_mut() {
-        *c = vs_map[*c];
+    for p in ps.iter_mut() {
+        for r in p.reqs.iter_mut() {
+            remap(r);
+        }
+        for c in p.constraints.iter_mut() {
+            *c = vs_map[*c];
+        }
     }
     for pk in u.packages.iter_mut() {
         for c in pk.cands.iter_mut().chain(pk.unlisted.iter_mut()) {
@@ -157,8 +176,10 @@ fn collect_garbage(u: &mut Universe, p: &mut Problem) {
     for v in &u.vsets {
         used_pkg[v.pkg] = true;
     }
-    for s in &p.soft {
-        used_pkg[s.pkg] = true;
+    for p in ps.iter() {
+        for s in &p.soft {
+            used_pkg[s.pkg] = true;
+        }
     }
     let mut pkg_map = vec![usize::MAX; u.packages.len()];
     let mut new_pk = vec![];
@@ -172,8 +193,10 @@ fn collect_garbage(u: &mut Universe, p: &mut Problem) {
     for v in u.vsets.iter_mut() {
         v.pkg = pkg_map[v.pkg];
     }
-    for s in p.soft.iter_mut() {
-        s.pkg = pkg_map[s.pkg];
+    for p in ps.iter_mut() {
+        for s in p.soft.iter_mut() {
+            s.pkg = pkg_map[s.pkg];
+        }
     }
 }
 
@@ -252,10 +275,14 @@ fn candidates_for(sc: &StructCase) -> Vec<StructCase> {
         push(&|c| {
             let n = c.u.packages[pi].cands.len();
             for k in (0..n).rev() {
-                remove_cand(&mut c.u, &mut c.problem, pi, k);
+                let StructCase { u, problem, more, .. } = c;
+                let mut ps: Vec<&mut Problem> = std::iter::once(problem).chain(more.iter_mut()).collect();
+                remove_cand(u, &mut ps, pi, k);
             }
             c.u.packages[pi].unlisted.clear();
-            c.problem.soft.retain(|s| s.pkg != pi);
+            for p in c.all_problems() {
+                p.soft.retain(|s| s.pkg != pi);
+            }
             true
         });
     }
@@ -263,7 +290,9 @@ fn candidates_for(sc: &StructCase) -> Vec<StructCase> {
         let pk = &sc.u.packages[pi];
         for ci in (0..pk.cands.len()).rev() {
             push(&|c| {
-                remove_cand(&mut c.u, &mut c.problem, pi, ci);
+                let StructCase { u, problem, more, .. } = c;
+                let mut ps: Vec<&mut Problem> = std::iter::once(problem).chain(more.iter_mut()).collect();
+                remove_cand(u, &mut ps, pi, ci);
                 true
             });
             push(&|c| {
@@ -305,7 +334,7 @@ fn candidates_for(sc: &StructCase) -> Vec<StructCase> {
         }
         for ui in (0..pk.unlisted.len()).rev() {
             push(&|c| {
-                if c.problem.soft.iter().any(|s| s.pkg == pi && !s.listed) {
+                if c.all_problems().iter().any(|p| p.soft.iter().any(|s| s.pkg == pi && !s.listed)) {
                     return false;
                 }
                 c.u.packages[pi].unlisted.remove(ui);
@@ -357,9 +386,36 @@ fn candidates_for(sc: &StructCase) -> Vec<StructCase> {
         });
     }
     push(&|c| {
-        collect_garbage(&mut c.u, &mut c.problem);
+        let StructCase { u, problem, more, .. } = c;
+        let mut ps: Vec<&mut Problem> = std::iter::once(problem).chain(more.iter_mut()).collect();
+        collect_garbage(u, &mut ps);
         true
     });
+    // later problems of a history
+    for mi in (0..sc.more.len()).rev() {
+        push(&|c| {
+            c.more.remove(mi);
+            true
+        });
+        for i in 0..sc.more[mi].reqs.len() {
+            push(&|c| {
+                c.more[mi].reqs.remove(i);
+                true
+            });
+        }
+        for i in 0..sc.more[mi].constraints.len() {
+            push(&|c| {
+                c.more[mi].constraints.remove(i);
+                true
+            });
+        }
+        for i in 0..sc.more[mi].soft.len() {
+            push(&|c| {
+                c.more[mi].soft.remove(i);
+                true
+            });
+        }
+    }
     push(&|c| {
         densify_ids(&mut c.u);
         true
@@ -375,7 +431,9 @@ pub fn minimize(start: StructCase, fails: &dyn Fn(&StructCase) -> bool, budget: 
             if evals >= budget {
                 break 'outer;
             }
-            if check_well_formed(&cand.u, &cand.problem).is_err() {
+            if check_well_formed(&cand.u, &cand.problem).is_err()
+                || cand.more.iter().any(|p| check_well_formed(&cand.u, p).is_err())
+            {
                 continue;
             }
             evals += 1;
